@@ -283,7 +283,50 @@ fn docs_for(name: &str) -> Vec<&'static str> {
     }
 }
 
+/// Free-running pass for the `tsan` flavour: the same thread bodies without the scheduler (whose baton hand-offs would be
+/// happens-before edges that blind the detector), 2..16 threads, repeated. Any ThreadSanitizer report aborts the worker
+/// and is reported as a violation with the recorded case.
+extern "C" { fn ts_verif_install_acquire_hook(); }
+
+fn tsan_pass(ctx: &Ctx, res: &mut ShardResult) {
+    // model the plain ownership reads as acquire loads (see DESIGN.md, C08)
+    unsafe { ts_verif_install_acquire_hook(); }
+    let reps = if ctx.quick() { 20 } else { 200 };
+    let mut idx = 0usize;
+    for z in crate::zoo::core_zoo().iter() {
+        let docs = docs_for(z.name);
+        if docs.is_empty() { continue; }
+        let info = build_info(z);
+        for d in &docs {
+            for nthreads in [2usize, 3, 4, 8, 16] {
+                idx += 1;
+                if !ctx.mine(idx) { continue; }
+                for rep in 0..reps {
+                    crate::case!("{}", json!({"part": "tsan", "lang": z.name, "doc": d, "threads": nthreads, "rep": rep}));
+                    let mut parser = Parser::new();
+                    parser.set_language(&info.language).unwrap();
+                    let base = parser.parse(d.as_bytes(), None).unwrap();
+                    let mut hs = vec![];
+                    for t in 0..nthreads {
+                        let copy = base.clone();
+                        let lang = info.language.clone();
+                        let text = d.as_bytes().to_vec();
+                        let prog = vec![TOPS[(t + rep) % TOPS.len()], TOPS[(t * 3 + 1) % TOPS.len()]];
+                        hs.push(std::thread::spawn(move || run_program(&lang, text, copy, &prog)));
+                    }
+                    if rep % 2 == 0 { drop(base); for h in hs { let _ = h.join(); } } else { for h in hs { let _ = h.join(); } drop(base); }
+                    res.transitions += nthreads as u64;
+                    res.states += 1;
+                    res.nontrivial += 1;
+                }
+            }
+        }
+    }
+    res.sample(json!({"part": "tsan", "threads": [2, 3, 4, 8, 16], "repetitions": reps}));
+}
+
 pub fn worker(ctx: &Ctx, res: &mut ShardResult) {
+    if crate::lang::flavour() == "tsan" { tsan_pass(ctx, res); return; }
     alloc::install();
     sched::install_hook();
     let depth = if ctx.mini() { 2 } else if ctx.quick() { 3 } else { 4 };
